@@ -42,6 +42,7 @@ Definition chk (c : Z * list (Z * Z) * Z * Z) : bool :=
   let '(opc, args, k, v) := c in
   forallb (fun a : Z * Z => if fst a =? 1 then chk_bits (snd a) else in64 (snd a)) args &&
   match eval_case opc args with
+  | Some RUnmodelled => negb (forallb (fun a : Z * Z => fst a =? 0) args) && (k =? 1)   (* never for int operands: int ** int has no Exp/Log branch *)
   | Some r => res_matches r k v
   | None => false
   end.
